@@ -75,7 +75,15 @@ pub fn get_rewards(deps: Deps, address: String) -> Result<RewardsResponse, Contr
         for epoch_id in first_claimable_epoch..=current_epoch {
             // check if the flow is active in this epoch
             if epoch_id < flow.start_epoch {
-                // the flow is not active yet, skip
+                // the flow is not active yet, skip. Keep track of the weight changes the user made
+                // in the meantime though, otherwise a stale weight (the earliest one recorded)
+                // would be used once the flow starts.
+                if let Some(user_weight_at_epoch) =
+                    ADDRESS_WEIGHT_HISTORY.may_load(deps.storage, (&address.clone(), epoch_id))?
+                {
+                    (last_epoch_user_weight_update, last_user_weight_seen) =
+                        (epoch_id, user_weight_at_epoch);
+                }
                 continue;
             } else if epoch_id >= *expanded_end_epoch {
                 // this flow has finished
